@@ -4,9 +4,11 @@
    Integers are Z (machine overflow out of scope); AverageF64 is exact over Q (floating-point
    rounding is outside the theorems); Min/Max finish returning None = the `expect` panic. *)
 From Coq Require Import List ZArith QArith Bool Permutation Sorted Lia.
-From IB Require Import Combiners.Lawful Combiners.Basic Combiners.TopK Combiners.Distinct.
+From IB Require Import Combiners.Lawful Combiners.Basic Combiners.TopK Combiners.Distinct
+  Combiners.Shapes Combiners.Checked Combiners.ExtReal.
 From IB Require Import Proofs.CombinersLawful Proofs.CombinersBasic Proofs.CombinersTopK
-  Proofs.CombinersDistinct Proofs.CombinersKMV Proofs.CombinersC06.
+  Proofs.CombinersDistinct Proofs.CombinersKMV Proofs.CombinersC06 Proofs.CombinersShapes
+  Proofs.CombinersC06Big Proofs.CombinersChecked Proofs.CombinersExtReal.
 Import ListNotations.
 Open Scope Z_scope.
 
@@ -280,6 +282,162 @@ Proof.
            merge_tree_eq_fold _ _ _ (kmv_lawful rank est k Hk) eq (kmv_spec_functional rank est k)).
 Qed.
 
+(* ================= 5. large groups: chunked merges, canonical accumulators ================= *)
+
+(* the compact description of a large group used by the correspondence runs is the closed form
+   ((a*i + b) mod m) + off, i = start .. start+n-1 *)
+Theorem c06_generator_closed_form : forall start n a b m off,
+    0 < m ->
+    gen_values start n a b m off
+    = map (fun j => (a * (start + Z.of_nat j) + b) mod m + off) (seq 0 n).
+Proof. exact gen_values_closed_form. Qed.
+
+(* cutting a group into consecutive chunks of any size loses and duplicates nothing, and no chunk
+   is empty or longer than asked *)
+Theorem c06_chunks_partition : forall (V : Type) psize (l : list V),
+    concat (chunks psize l) = l /\
+    forall p, In p (chunks psize l) -> p <> [] /\ (length p <= Nat.max 1 psize)%nat.
+Proof. exact (fun V psize l => conj (concat_chunks psize l) (chunks_bounds psize l)). Qed.
+
+(* create followed by add_input of every value IS the fold; a merge tree IS an accumulator
+   expression with the same values *)
+Theorem c06_fold_expression_is_fold :
+  forall (V A O : Type) (c : combiner V A O) (vs : list V), aeval c (fold_expr vs) = fold_acc c vs.
+Proof. exact @aeval_fold_expr. Qed.
+
+Theorem c06_merge_tree_is_expression :
+  forall (V A O : Type) (c : combiner V A O) (t : mtree V),
+    aeval c (aexpr_of_mtree t) = meval c t /\
+    Permutation (avalues (aexpr_of_mtree t)) (concat (mparts t)).
+Proof. exact (fun V A O c t => conj (aeval_aexpr_of_mtree c t) (avalues_aexpr_of_mtree t)). Qed.
+
+(* a group of ANY size cut into chunks of ANY size, each chunk lifted or not (3 leaf modes),
+   merged left-nested, right-nested or along a balanced tree: the mathematical output, and the
+   same output as the plain fold *)
+Theorem c06_chunked_merge_spec :
+  forall (V A O : Type) (c : combiner V A O) R spec, lawful c R spec ->
+  forall (mode nest psize : nat) (vs : list V),
+    spec vs (c_finish c (aeval c (chunked mode nest psize vs))).
+Proof. exact @chunked_spec. Qed.
+
+Theorem c06_chunked_merge_eq_fold :
+  forall (V A O : Type) (c : combiner V A O) R spec, lawful c R spec ->
+  forall eqO : O -> O -> Prop, (forall m o o', spec m o -> spec m o' -> eqO o o') ->
+  forall (mode nest psize : nat) (vs : list V),
+    eqO (c_finish c (aeval c (chunked mode nest psize vs))) (c_finish c (fold_acc c vs)).
+Proof. exact @chunked_eq_fold. Qed.
+
+(* when the represented multiset determines the accumulator, any two accumulator expressions over
+   the same values evaluate to the SAME accumulator (not merely to equivalent outputs) *)
+Theorem c06_canonical_accumulator :
+  forall (V A O : Type) (c : combiner V A O) R spec, lawful c R spec ->
+  (forall a a' m, R a m -> R a' m -> a = a') ->
+  forall e e' : aexpr V, Permutation (avalues e) (avalues e') -> aeval c e = aeval c e'.
+Proof. exact @canonical_accumulator. Qed.
+
+(* ... which is the case for Count, Sum, Min, Max and TopK (every k) *)
+Theorem c06_canonical_builtins :
+  (forall V, same_accumulator (count_combiner V)) /\ same_accumulator sum_combiner /\
+  same_accumulator min_combiner /\ same_accumulator max_combiner /\
+  (forall k, same_accumulator (topk_combiner k)).
+Proof. exact canonical_builtins. Qed.
+
+(* for AverageF64: the same count and the same rational sum *)
+Theorem c06_average_same_accumulator : forall e e' : aexpr Q,
+    Permutation (avalues e) (avalues e') ->
+    (fst (aeval average_combiner e) == fst (aeval average_combiner e'))%Q /\
+    snd (aeval average_combiner e) = snd (aeval average_combiner e').
+Proof. exact average_same_accumulator. Qed.
+
+(* build_from_group of a group IS the fold of the group, and build_from_group of a concatenation
+   IS the merge of the two builds, as accumulators, for groups of every size *)
+Theorem c06_build_is_fold_and_splits :
+  (forall V, build_is_fold_and_splits (count_combiner V)) /\
+  build_is_fold_and_splits sum_combiner /\
+  build_is_fold_and_splits min_combiner /\ build_is_fold_and_splits max_combiner /\
+  (forall k, build_is_fold_and_splits (topk_combiner k)).
+Proof. exact build_canonical_builtins. Qed.
+
+(* TopK::merge's fast path (`acc.extend(other)` when everything fits) is only an optimisation: the
+   two-pointer path computes the same heap for every input *)
+Theorem c06_topk_merge_is_two_pointer : forall k acc other,
+    StronglySorted Z.le acc ->
+    topk_merge k acc other = heap_extend [] (two_pointer k (rev acc) (rev (sort_asc other))).
+Proof. exact topk_merge_is_two_pointer. Qed.
+
+(* Min and Max commute with any strictly increasing re-labelling of the values, whatever the call
+   shape: the theorems above hold for every totally ordered element type that embeds into Z
+   (the correspondence uses this for Min / Max over OrdF64 with f64::total_cmp) *)
+Theorem c06_min_monotone_key : forall f : Z -> Z, (forall x y, x < y <-> f x < f y) ->
+    forall e, aeval min_combiner (map_aexpr f e) = option_map f (aeval min_combiner e).
+Proof. exact min_monotone_key. Qed.
+
+Theorem c06_max_monotone_key : forall f : Z -> Z, (forall x y, x < y <-> f x < f y) ->
+    forall e, aeval max_combiner (map_aexpr f e) = option_map f (aeval max_combiner e).
+Proof. exact max_monotone_key. Qed.
+
+(* ================= 6. Sum over machine integers (lo .. hi) ================= *)
+
+(* overflow-checked `+` (None = panicked): whatever the split, lifting and merge order, a result
+   that comes back is the exact sum: never a wrong number *)
+Theorem c06_sum_checked_sound : forall lo hi e z,
+    aeval (sum_checked_combiner lo hi) e = Some z -> z = zsum (avalues e).
+Proof. exact sum_checked_sound. Qed.
+
+(* when the positive values total at most hi and the negative ones at least lo, no way of
+   splitting, lifting, merging or ordering panics, and the machine sum is the Z model's sum *)
+Theorem c06_sum_no_overflow : forall lo hi e,
+    lo <= - zneg (avalues e) -> zpos (avalues e) <= hi ->
+    aeval (sum_checked_combiner lo hi) e = Some (aeval sum_combiner e).
+Proof. exact sum_checked_no_overflow. Qed.
+
+(* without that hypothesis the panic (not the value) depends on the grouping: i8, 127 + 1 - 1 *)
+Theorem c06_sum_checked_panic_is_order_dependent :
+  let c := sum_checked_combiner (-128) 127 in
+  let e1 := ABuild [127; 1; -1] in
+  let e2 := AMerge (ABuild [127]) (ABuild [1; -1]) in
+  Permutation (avalues e1) (avalues e2) /\ aeval c e1 = None /\ aeval c e2 = Some 127.
+Proof. exact sum_checked_order_dependent. Qed.
+
+(* wrapping `+` (release build, std::num::Wrapping): lawful for the sum modulo 2^bits; equal to
+   the Z model whenever the exact sum is representable *)
+Theorem c06_sum_wrapping_lawful : forall lo modulus,
+    0 < modulus -> lo <= 0 < lo + modulus ->
+    lawful (sum_wrapping_combiner lo modulus) (wrap_R lo modulus) (wrap_spec lo modulus).
+Proof. exact sum_wrapping_lawful. Qed.
+
+Theorem c06_sum_wrapping_exact : forall lo modulus,
+    0 < modulus -> lo <= 0 < lo + modulus ->
+    forall e, lo <= zsum (avalues e) < lo + modulus ->
+    aeval (sum_wrapping_combiner lo modulus) e = aeval sum_combiner e.
+Proof. exact sum_wrapping_exact. Qed.
+
+(* ================= 7. NaN and infinities: Sum<f64> and AverageF64 ================= *)
+
+Theorem c06_nonfinite_sum_lawful : lawful xsum_combiner xsum_R xsum_spec.
+Proof. exact xsum_lawful. Qed.
+
+Theorem c06_nonfinite_average_lawful : lawful xavg_combiner xavg_R xavg_spec.
+Proof. exact xavg_lawful. Qed.
+
+(* every merge tree gives the class-wise total: NaN if there is a NaN or infinities of both
+   signs, else the infinity present, else the exact finite sum *)
+Theorem c06_nonfinite_sum : forall (t : mtree xr) vs,
+    Permutation (concat (mparts t)) vs ->
+    c_finish xsum_combiner (meval xsum_combiner t) = xtotal vs.
+Proof. exact xsum_tree. Qed.
+
+(* and the mean is that total over the number of ALL samples (0 for none) *)
+Theorem c06_nonfinite_average : forall (t : mtree xr) vs,
+    Permutation (concat (mparts t)) vs ->
+    c_finish xavg_combiner (meval xavg_combiner t)
+    = xavg_finish (xtotal vs, Z.of_nat (length vs)).
+Proof. exact xavg_tree. Qed.
+
+Theorem c06_nonfinite_total :
+  (forall m, In XNaN m -> xtotal m = XNaN) /\ (forall zs, xtotal (map XFin zs) = XFin (zsum zs)).
+Proof. exact (conj xtotal_nan xtotal_finite). Qed.
+
 (* ================= non-vacuity examples ================= *)
 (* KMV with k = 2, ranks = the values: of 5 3 9 1 3 7 the two smallest distinct are 1 and 3 *)
 Example ex_kmv :
@@ -353,3 +511,45 @@ Proof.
   - reflexivity.
   - reflexivity.
 Qed.
+
+(* large groups: 70 scrambled values in chunks of 8 (the last chunk has 6), alternating lifted and
+   unlifted leaves, balanced tree: the sum, the top 3, and the same accumulator as one build *)
+Definition ex_group : list Z := gen_values 0 70 48271 3 257 (-100).
+Example ex_gen : 0 < 257 /\ firstn 4 ex_group = [-97; 115; 70; 25] /\ length ex_group = 70%nat.
+Proof. repeat split. Qed.
+Example ex_chunked :
+  length (chunks 8 ex_group) = 9%nat /\
+  c_finish sum_combiner (aeval sum_combiner (chunked 2 2 8 ex_group)) = zsum ex_group /\
+  c_finish (topk_combiner 3) (aeval (topk_combiner 3) (chunked 2 2 8 ex_group)) = [153; 152; 147] /\
+  aeval (topk_combiner 3) (chunked 2 2 8 ex_group) = c_build (topk_combiner 3) ex_group.
+Proof. repeat split. Qed.
+Example ex_functional_R : forall a a' m, sum_R a m -> sum_R a' m -> a = a'.
+Proof. exact sum_R_functional. Qed.
+(* machine integers: i8 values whose positive part totals 127 and negative part -128 *)
+Example ex_no_overflow :
+  let e := AMerge (ABuild [100; -128]) (AAdd (ABuild [20]) 7) in
+  -128 <= - zneg (avalues e) /\ zpos (avalues e) <= 127 /\
+  aeval (sum_checked_combiner (-128) 127) e = Some (-1).
+Proof. cbn. repeat split; lia. Qed.
+Example ex_wrapping :
+  0 < 256 /\ -128 <= 0 < -128 + 256 /\
+  aeval (sum_wrapping_combiner (-128) 256) (ABuild [127; 1]) = -128 /\
+  aeval (sum_wrapping_combiner (-128) 256) (AMerge (ABuild [127]) (ABuild [1; -1])) = 127.
+Proof. cbn. repeat split; lia. Qed.
+(* non-finite samples *)
+Example ex_nonfinite :
+  let t := MNode (MLeaf true [XFin 3; XPInf]) (MLeaf false [XFin (-5)]) in
+  c_finish xsum_combiner (meval xsum_combiner t) = XPInf /\
+  c_finish xavg_combiner (meval xavg_combiner t) = MPInf /\
+  c_finish xsum_combiner (meval xsum_combiner (MNode t (MLeaf true [XNInf]))) = XNaN /\
+  c_finish xavg_combiner (meval xavg_combiner (MNode (MLeaf true [XFin 3]) (MLeaf false [XFin 4; XFin 5])))
+  = MFin 12 3.
+Proof. repeat split. Qed.
+(* a strictly increasing key; an ascending accumulator that does not fit with the other one *)
+Example ex_key : (forall x y, x < y <-> 2 * x + 1 < 2 * y + 1) /\
+  aeval min_combiner (map_aexpr (fun x => 2 * x + 1) (AMerge (ABuild [4; -3]) (AAdd ACreate 0))) = Some (-5).
+Proof. split; [intros; lia | reflexivity]. Qed.
+Example ex_two_pointer :
+  StronglySorted Z.le [2; 5; 9] /\ topk_merge 4 [2; 5; 9] [7; 1] = [2; 5; 7; 9] /\
+  topk_merge 5 [2; 5; 9] [7; 1] = [1; 2; 5; 7; 9].
+Proof. repeat split. repeat constructor; lia. Qed.
